@@ -390,6 +390,10 @@ func Fingerprint(n *Node) string {
 }
 
 func fingerprint(n *Node, sb *strings.Builder, depth int) {
+	if n == nil {
+		sb.WriteString("nil")
+		return
+	}
 	switch n.Kind {
 	case "obj", "link", "sub":
 		sb.WriteString(n.GoT)
